@@ -374,7 +374,8 @@ def run(chk, repo, tier):
 
     # ---------------------------------------------------------------- C08-g
     for key in ('plane.Plane.multiply', 'propagate.propagate_dft', 'propagate.propagate_fft',
-                'plane.Pupil.multiply', 'plane.Image.multiply', 'plane.TiltInterface.multiply'):
+                'plane.Pupil.multiply', 'plane.Image.multiply', 'plane.TiltInterface.multiply',
+                'wavefront.Wavefront.__mul__', 'wavefront.Wavefront.__rmul__'):
         f, paths, _ = analyse(repo, key, types={('sym', 'wavefront'): wf})
         bad = []
         has_raise = False
